@@ -273,9 +273,6 @@ package bus
 //@   trusted
 //@   modifies c.sent, c.lasttype, c.lastid, c.lastaction, c.lastservice, c.lastobject
 //@   ensures c.sent == old(c.sent) + 1 && c.lasttype == msg.Header.Type && c.lastid == msg.Header.ID && c.lastaction == msg.Header.Action && c.lastservice == msg.Header.Service && c.lastobject == msg.Header.Object
-//@ interface (e net.EndPoint) RemoveHandler(id int) (err error)
-//@   trusted
-//@   modifies everything
 //@ func (o *signalHandler) trace(msg *net.Message)
 //@   trusted
 //@   pure
@@ -354,6 +351,44 @@ package bus
 //@   modifies c.endpoint.sentcount, c.endpoint.lastid, c.endpoint.lasttype, c.endpoint.lastservice, c.endpoint.lastobject, c.endpoint.lastaction
 //@   ensures[C04] c.endpoint.sentcount == old(c.endpoint.sentcount) + 1 && c.endpoint.lasttype == 3
 //@   ensures[C04] c.endpoint.lastid == msg.Header.ID && c.endpoint.lastservice == msg.Header.Service && c.endpoint.lastobject == msg.Header.Object && c.endpoint.lastaction == msg.Header.Action
+
+// The wrapping channels (tracing, statistics) answer with the request's own id, service, object and
+// action exactly like the base channel, through the wrapped channel.
+//@ interface (t Tracer) Trace(msg *net.Message, id uint32)
+//@   trusted
+//@ func (o *objectImpl) updateMethodStatistics(uid uint32, d time.Duration)
+//@   trusted
+//@   modifies o.stats[*]
+//@ func (c *tracedChannel) Send(msg *net.Message) (err error)
+//@   tags C04
+//@   requires msg != nil && c.Channel != nil && c.tracer != nil
+//@   modifies c.Channel.sent, c.Channel.lasttype, c.Channel.lastid, c.Channel.lastaction, c.Channel.lastservice, c.Channel.lastobject
+//@   ensures[C04] c.Channel.sent == old(c.Channel.sent) + 1 && c.Channel.lasttype == msg.Header.Type && c.Channel.lastid == msg.Header.ID && c.Channel.lastaction == msg.Header.Action && c.Channel.lastservice == msg.Header.Service && c.Channel.lastobject == msg.Header.Object
+//@ func (c *tracedChannel) SendError(msg *net.Message, e error) (err error)
+//@   tags C04
+//@   requires msg != nil && c.Channel != nil && c.tracer != nil && e != nil
+//@   modifies c.Channel.sent, c.Channel.lasttype, c.Channel.lastid, c.Channel.lastaction, c.Channel.lastservice, c.Channel.lastobject
+//@   ensures[C04] c.Channel.sent == old(c.Channel.sent) + 1 && c.Channel.lasttype == 3 && c.Channel.lastid == msg.Header.ID && c.Channel.lastaction == msg.Header.Action && c.Channel.lastservice == msg.Header.Service && c.Channel.lastobject == msg.Header.Object
+//@ func (c *tracedChannel) SendReply(msg *net.Message, response []byte) (err error)
+//@   tags C04
+//@   requires msg != nil && c.Channel != nil && c.tracer != nil
+//@   modifies c.Channel.sent, c.Channel.lasttype, c.Channel.lastid, c.Channel.lastaction, c.Channel.lastservice, c.Channel.lastobject
+//@   ensures[C04] c.Channel.sent == old(c.Channel.sent) + 1 && c.Channel.lasttype == 2 && c.Channel.lastid == msg.Header.ID && c.Channel.lastaction == msg.Header.Action && c.Channel.lastservice == msg.Header.Service && c.Channel.lastobject == msg.Header.Object
+//@ func (c *statChannel) Send(msg *net.Message) (err error)
+//@   tags C04
+//@   requires msg != nil && c.Channel != nil && c.o != nil
+//@   modifies c.Channel.sent, c.Channel.lasttype, c.Channel.lastid, c.Channel.lastaction, c.Channel.lastservice, c.Channel.lastobject, c.o.stats[*]
+//@   ensures[C04] c.Channel.sent == old(c.Channel.sent) + 1 && c.Channel.lasttype == msg.Header.Type && c.Channel.lastid == msg.Header.ID && c.Channel.lastaction == msg.Header.Action && c.Channel.lastservice == msg.Header.Service && c.Channel.lastobject == msg.Header.Object
+//@ func (c *statChannel) SendError(msg *net.Message, e error) (err error)
+//@   tags C04
+//@   requires msg != nil && c.Channel != nil && c.o != nil && e != nil
+//@   modifies c.Channel.sent, c.Channel.lasttype, c.Channel.lastid, c.Channel.lastaction, c.Channel.lastservice, c.Channel.lastobject, c.o.stats[*]
+//@   ensures[C04] c.Channel.sent == old(c.Channel.sent) + 1 && c.Channel.lasttype == 3 && c.Channel.lastid == msg.Header.ID && c.Channel.lastaction == msg.Header.Action && c.Channel.lastservice == msg.Header.Service && c.Channel.lastobject == msg.Header.Object
+//@ func (c *statChannel) SendReply(msg *net.Message, response []byte) (err error)
+//@   tags C04
+//@   requires msg != nil && c.Channel != nil && c.o != nil
+//@   modifies c.Channel.sent, c.Channel.lasttype, c.Channel.lastid, c.Channel.lastaction, c.Channel.lastservice, c.Channel.lastobject, c.o.stats[*]
+//@   ensures[C04] c.Channel.sent == old(c.Channel.sent) + 1 && c.Channel.lasttype == 2 && c.Channel.lastid == msg.Header.ID && c.Channel.lastaction == msg.Header.Action && c.Channel.lastservice == msg.Header.Service && c.Channel.lastobject == msg.Header.Object
 
 // Message ids: allocated under the mutex, strictly advancing by 2 (distinct for fewer than 2^31 calls).
 //@ guarded_by (c *client) c.messageIDMutex: c.messageID
